@@ -304,6 +304,13 @@ func validSpec(t *rapid.T, client bool, label string) msgSpec {
 		for i := 0; i < n; i++ {
 			m.chunks = append(m.chunks, strings.Repeat("c", rapid.IntRange(1, 30).Draw(t, label+"_chunklen")))
 		}
+		if n > 0 && rapid.IntRange(0, 2).Draw(t, label+"_chunkext") == 0 {
+			// chunk-size lines with something behind the size: padding blanks or a chunk extension (both legal)
+			m.chunkHdr = make([]string, n)
+			for i := 0; i < n; i++ {
+				m.chunkHdr[i] = strconv.FormatInt(int64(len(m.chunks[i])), 16) + rapid.SampledFrom([]string{"", " ", "   ", ";ext=1", ";a=b;c=d"}).Draw(t, label+"_chunktail")
+			}
+		}
 		if rapid.Bool().Draw(t, label+"_trailers") {
 			m.trailers = []string{"X-T1"}
 			if rapid.Bool().Draw(t, label+"_trailers2") {
